@@ -484,7 +484,7 @@ impl Document {
 
         let mut initialism_start = None;
 
-        loop {
+        while cursor < self.tokens.len() {
             let a = &self.tokens[cursor - 1];
             let b = &self.tokens[cursor];
 
@@ -510,10 +510,12 @@ impl Document {
             }
 
             cursor += 1;
+        }
 
-            if cursor >= self.tokens.len() - 1 {
-                break;
-            }
+        // An initialism that runs up to the end of the document.
+        if let Some(start) = initialism_start {
+            let end = self.tokens[cursor - 2].span.end;
+            self.tokens[start].span.end = end;
         }
 
         self.tokens.remove_indices(to_remove);
